@@ -12,6 +12,7 @@ import json
 import multiprocessing as mp
 import os
 import random
+import re
 import tokenize
 
 VERIF = os.path.dirname(os.path.dirname(os.path.abspath(__file__)))
@@ -74,8 +75,9 @@ def work_ignore(case):
             r = pyrefact.format_code(s2)
     except BaseException as ex:  # noqa: BLE001
         return {"cls": f"raises:{type(ex).__name__}", "what": f"format_code raised {type(ex).__name__}: {str(ex)[:100]} (line {ln} annotated)"}
-    if want not in r.splitlines():
-        kind = "reindented" if want.strip() in [x.strip() for x in r.splitlines()] else "changed-or-removed"
+    out_lines = re.split(r"\r\n|\r|\n", r)          # lines as the parser sees them: a form feed does not end a line
+    if want not in out_lines:
+        kind = "reindented" if want.strip() in [x.strip() for x in out_lines] else "changed-or-removed"
         return {"cls": kind, "what": f"annotated line {ln} {want!r} is not carried over verbatim ({kind})", "output": r}
     return None
 
@@ -154,11 +156,26 @@ def work_has_ignore(_):
     return n, fails
 
 
+# hand-written cases (source, annotated line as it must reappear, its line number): the annotated line is a neighbour of what a rule removes
+# or moves (trailing semicolon, duplicate import), carries a form feed, has CRLF line ends, sits in an if/else whose other branch is rewritten
+HAND_CASES = [
+    ("def f(xs):\n    for x in xs:\n        print(x)\n        y = 100;\n    print(y)  # pyrefact: ignore\nf([1])\n", "    print(y)  # pyrefact: ignore", 5),
+    ("import os\nif os.name == 'nt':\n    import yaml\n    import yaml;\nprint(os, yaml)  # pyrefact: ignore\n", "print(os, yaml)  # pyrefact: ignore", 5),
+    ("def f():\n    from yaml import load\n    from yaml import dump;\nprint(f)  # pyrefact: ignore\n", "print(f)  # pyrefact: ignore", 4),
+    ("try:\n    import yaml\n    import yaml;\nexcept ImportError:  # pyrefact: ignore\n    yaml = None\n", "except ImportError:  # pyrefact: ignore", 4),
+    ("if False: print(1) \x0c # pyrefact: ignore\nprint(2)\n", "if False: print(1) \x0c # pyrefact: ignore", 1),
+    ("import sys\ny = len(sys.argv) \x0c # pyrefact: ignore\nprint(2)\n", "y = len(sys.argv) \x0c # pyrefact: ignore", 2),
+    ("def f(x):\n    if x:\n        y = 1  # pyrefact: ignore\n    else:\n        y = 2\n    return y\n\n\nprint(f(1))\n", "        y = 1  # pyrefact: ignore", 3),
+    ("x = 1  # pyrefact: ignore\nprint(os.getcwd(), x)\n", "x = 1  # pyrefact: ignore", 1),
+    ("def f(a):\n    b = a  # pyrefact: ignore\n    return b\n\n\ndef g(a):\n    b = a\n    return b\n\n\nprint(f(1), g(2))\n", "    b = a  # pyrefact: ignore", 2),
+]
+
+
 def run(tier, seed):
     rnd = random.Random(seed)
     srcs = corpus()
     per = 4 if tier == "quick" else None
-    cases = []
+    cases = [c for c in HAND_CASES]
     for s in srcs:
         cases += annotate_cases(s, per, rnd)
     skip_srcs = rnd.sample(srcs, 12 if tier == "quick" else 60)
